@@ -28,3 +28,6 @@ mod c16;
 
 #[cfg(kani)]
 mod c18;
+
+#[cfg(kani)]
+mod c08;
